@@ -220,6 +220,7 @@ func VerifH_C10_reclaim() {
 	bkt.faultOn = false
 	symObserve("vacuum_failed", verr != nil)
 	if verr != nil {
+		symEvent("vacuum-reported-failure")
 		// the fault is gone: the same vacuum now completes
 		symAssert(Vacuum(vCtx, "t", time.Unix(0, cut)) == nil, "retry-after-fault-ok")
 		symReach("retried")
